@@ -454,12 +454,16 @@ func checkC19(rep *Report, rng *Rng, tier string) {
 			if r.Chance(1, 8) {
 				out = append(out, Op{K: "flush"}, Op{K: "reopen"})
 				opens++
-				k := []string{"geti", "get", "exist", "min", "max", "geti"}[r.Intn(6)]
+				k := []string{"geti", "get", "exist", "min", "max", "geti", "asc", "desc", "ascx", "descx"}[r.Intn(10)]
 				key := o.Key
 				if len(key) == 0 {
 					key = []byte("a")
 				}
-				out = append(out, Op{K: k, Name: o.Name, Key: key, WV: r.Chance(1, 2)})
+				stop := -1
+				if r.Chance(1, 2) {
+					stop = r.Intn(6)
+				}
+				out = append(out, Op{K: k, Name: o.Name, Key: key, WV: r.Chance(1, 2), N: stop})
 			}
 		}
 		d := CfgDesc{Check: "C19", FileBacked: true, CmpCB: g.CmpMode == 1, Post: "lazyreads"}
@@ -590,6 +594,34 @@ func init() {
 				}
 			}
 			if !wasFresh {
+				return nil
+			}
+			if op.K == "asc" || op.K == "desc" || op.K == "ascx" || op.K == "descx" {
+				rc, ok := w.H[0].Ref.Colls[op.Name]
+				if !ok {
+					return nil
+				}
+				dir := "asc"
+				if op.K == "desc" || op.K == "descx" {
+					dir = "desc"
+				}
+				budget := op.N
+				if budget < 0 {
+					budget = len(rc.Items) + 1
+				}
+				b := "f"
+				if op.WV {
+					b = "t"
+				}
+				exp, err := getModel().request(fmt.Sprintf("visitreads %s %d %s %s %s %d %s", dir, rc.Cmp, hx([]byte(op.Name)), hx(op.Key), b, budget, hexFile(img)))
+				if err != nil {
+					return &Mismatch{Kind: "model-runner", Expected: "model evaluation", Observed: err.Error()}
+				}
+				lazyCompared++
+				if exp != got {
+					return &Mismatch{Kind: "reads-vs-model", Expected: exp, Observed: got,
+						Note: "ReadAt calls (offset:length) of the first visit after re-opening vs the Coq model Lazy.visit_reads"}
+				}
 				return nil
 			}
 			kind, wv := "", op.WV
